@@ -32,9 +32,11 @@ pub fn ccp(
     let mut dom_region_replacements = FxHashMap::default();
 
     for block in function.block_iter(context) {
-        let term = block
-            .get_terminator(context)
-            .expect("Malformed block: no terminator");
+        // Empty unreferenced blocks are accepted by the IR verifier (a harmless
+        // artefact left behind by other passes, e.g., inlining); skip them.
+        let Some(term) = block.get_terminator(context) else {
+            continue;
+        };
         if let InstOp::ConditionalBranch {
             cond_value,
             true_block,
